@@ -20,7 +20,7 @@ ANCHORS = {'NmVerif.Checked.shapeReshape': 'index::shape_reshape / count_negativ
            'NmVerif.Checked.transposeChecked / swapaxesChecked / expandDimsChecked / repeatChecked / repeatListChecked / concatenateChecked':
                'run-time argument validation of view::transpose, swapaxes, expand_dims, repeat, concatenate (as repaired by fixes/C15-*.diff; transpose: proposed only) in front of the value models of C03 / C04'}
 MANIFEST = dict(
-    text='Proof + exploration: Lean theorems that reshape returns Nothing exactly on invalid targets (more than one -1, zero/negative extent, mismatching or non-dividing element count) and that an accepted reshape has positive extents and the source element count; normalize_axis accepts exactly [-ndim, ndim); an empty optional propagates through pipelines of any depth; for transpose, swapaxes, expand_dims, repeat (scalar count and one count per entry) and concatenate a view exists EXACTLY on the arguments NumPy accepts (permutation of the axes / axes in range / no repeated axis / count list as long as the axis / equal ranks and off-axis extents) and is then the value model of C03 / C04. Every checked operation (reshape, transpose, moveaxis, swapaxes, expand_dims, broadcast_to, add, concatenate, matmul, pad, tile, repeat, roll, sum, dot, inner, vecdot, tensordot, depth-2/3 pipelines; dynamic and fixed-dim sources) is run over its full small-scope argument space INCLUDING the invalid part against NumPy raise/no-raise, in an NDEBUG build and an assert+ASan+UBSan build; swapaxes, expand_dims, repeat, concatenate and matmul refuse invalid run-time arguments since the repairs fixes/C15-*.diff; 6 classes remain known findings (transpose axes, reduction axis, contraction extents of inner/vecdot/tensordot, tensordot axes beyond the rank, a single broadcast repeat count, matmul with a 1-d operand).',
+    text='Proof + exploration: Lean theorems that reshape returns Nothing exactly on invalid targets (more than one -1, zero/negative extent, mismatching or non-dividing element count) and that an accepted reshape has positive extents and the source element count; normalize_axis accepts exactly [-ndim, ndim); an empty optional propagates through pipelines of any depth; for transpose, swapaxes, expand_dims, repeat (scalar count and one count per entry) and concatenate a view exists EXACTLY on the arguments NumPy accepts (permutation of the axes / axes in range / no repeated axis / count list as long as the axis / equal ranks and off-axis extents) and is then the value model of C03 / C04. Every checked operation (reshape, transpose, moveaxis, swapaxes, expand_dims, broadcast_to, add, concatenate, matmul, pad, tile, repeat, roll, sum, dot, inner, vecdot, tensordot, depth-2/3 pipelines; dynamic and fixed-dim sources) is run over its full small-scope argument space INCLUDING the invalid part against NumPy raise/no-raise, in an NDEBUG build and an assert+ASan+UBSan build; swapaxes, expand_dims, repeat, concatenate and matmul refuse invalid run-time arguments since the repairs fixes/C15-*.diff; matmul with a 1-d operand (1-d promotion) gives the NumPy value since the repair fixes/C16-matmul-1d-operand.diff; inner / vecdot / tensordot refuse mismatching contracted extents (also 1 against n) and tensordot an integer axes beyond a rank since the repair fixes/C15-contraction-extent.diff; 3 classes remain known findings (transpose axes, reduction axis, a single broadcast repeat count).',
     note='Lean kernel + propext/Classical.choice/Quot.sound (+ Mathlib.Tactic.Ring in the proof file). Validity of the other operations is decided by the NumPy oracle, the value part by the models of C03/C04/C06; the process-level outcome (abort, out-of-range exception) is observed, not modelled.',
     technique='Lean 4 iff-theorems for the checked argument predicates + Option-monad propagation by induction on a pipeline AST; differential run against NumPy over valid and invalid arguments under sanitizers')
 ASSUMPTIONS = ['NumPy 2.x raise / no-raise decision is the reference for validity (the property text names it)']
@@ -151,22 +151,6 @@ def k_concatenate_unchecked(c):
     return any(s1[k] != s2[k] for k in range(len(s1)) if k != ax)
 
 
-def k_matmul_unchecked(c):
-    op, a = args_of(c.req)
-    if op != 'matmul':
-        return False
-    s1, s2 = ints(a['shape']), ints(a['shape2'])
-    if len(s1) != 1 and len(s2) != 1:
-        return False
-    # a 1-d operand: NumPy promotes it; view::matmul computes the shape but every element access leaves the operand
-    # (C16 matmul.v1-1d-operand); a mismatching contraction extent is refused (Nothing) like for any other operand
-    try:
-        np.matmul(np.zeros(s1), np.zeros(s2))
-        return True
-    except Exception:
-        return False
-
-
 def k_transpose_in_pipeline(c):
     """transpose with invalid explicit axes as the middle stage of a pipeline (same call site as transpose_invalid_axes)"""
     op, a = args_of(c.req)
@@ -178,28 +162,6 @@ def k_transpose_in_pipeline(c):
     except Exception:
         return False
     return len(ax) != d or any(x < -d or x >= d for x in ax) or len({x % d for x in ax}) != d
-
-
-def k_contraction_extent_broadcast(c):
-    """inner / vecdot / tensordot(n): contracted extents that differ where one of them is 1 (NumPy: not aligned) — the
-    product of the re-arranged operands is broadcast over the contracted axes instead of being refused"""
-    op, a = args_of(c.req)
-    if op not in ('inner', 'vecdot', 'tensordot'):
-        return False
-    s1, s2 = ints(a['shape']), ints(a['shape2'])
-    if op == 'tensordot':
-        n = int(a['axes'])
-        if n > len(s1) or n > len(s2):
-            return False
-        prs = [(s1[len(s1) - n + i], s2[i]) for i in range(n)]
-    else:
-        prs = [(s1[-1], s2[-1])]
-    return any(x != y for x, y in prs) and all(x == y or x == 1 or y == 1 for x, y in prs)
-
-
-def k_tensordot_axes_beyond_rank(c):
-    op, a = args_of(c.req)
-    return op == 'tensordot' and (int(a['axes']) > len(ints(a['shape'])) or int(a['axes']) > len(ints(a['shape2'])))
 
 
 def k_repeat_single_count_broadcast(c):
@@ -214,8 +176,6 @@ def k_repeat_single_count_broadcast(c):
 
 KNOWN_PREDICATES = {
     'transpose_invalid_axes': k_transpose_invalid_axes, 'sum_invalid_axis': k_sum_invalid_axis,
-    'matmul_1d_operand': k_matmul_unchecked,
-    'contraction_extent_broadcast': k_contraction_extent_broadcast, 'tensordot_axes_beyond_rank': k_tensordot_axes_beyond_rank,
     'repeat_single_count_broadcast': k_repeat_single_count_broadcast,
 }
 _san_budget = {}
